@@ -604,3 +604,10 @@ func ZZ_MP_bmc() {
 		zzReach("bmc ends while recording")
 	}
 }
+
+// replay entries of this file (registered here so that the file can be left out
+// on its own when it does not compile against the tree under check)
+func init() {
+	zzEntries["ZZ_MP_step"] = ZZ_MP_step
+	zzEntries["ZZ_MP_bmc"] = ZZ_MP_bmc
+}
